@@ -99,6 +99,10 @@ class Node:
             return None
 
     def child(self, role):
+        if self.k == 'CXXOperatorCallExpr' and role in ('lhs', 'rhs') and self.j.get('op') in ('=', '+=', '-=', '*=', '/='):
+            a = [c for c, r in zip(self.c, self.rl) if r == 'arg']
+            if len(a) == 2:
+                return a[0] if role == 'lhs' else a[1]
         for c, r in zip(self.c, self.rl):
             if r == role:
                 return c
@@ -136,18 +140,22 @@ class Node:
         return False
 
     # canonical text (alpha-renaming handled by caller through `ren`)
-    def text(self, ren=None):
-        return expr_text(self, ren)
+    def text(self, ren=None, hook=None):
+        return expr_text(self, ren, hook)
 
     def __repr__(self):
         return '<%s#%d %s @%d>' % (self.k, self.id, self.text()[:60], self.l)
 
 
-def expr_text(n, ren=None):
+def expr_text(n, ren=None, hook=None):
     if n is None:
         return '∅'
+    if hook is not None:
+        r = hook(n)
+        if r is not None:
+            return r
     k = n.k
-    T = lambda x: expr_text(x, ren)
+    T = lambda x: expr_text(x, ren, hook)
     if k == 'DeclRefExpr':
         if ren is not None and n.dk in ('local', 'param', 'static'):
             return ren(n)
@@ -247,33 +255,43 @@ def expr_text(n, ren=None):
     return '%s(%s)' % (k, ', '.join(T(c) for c in n.c))
 
 
-def stmt_tree_text(n, ren=None, indent=0):
-    """Canonical multi-line print of a statement tree (for clone comparison / debugging)."""
+def stmt_tree_text(n, ren=None, indent=0, hook=None, drop=None):
+    """Canonical multi-line print of a statement tree (for clone comparison / debugging).
+    hook(node) -> replacement text or None; drop(stmt) -> True to omit a statement."""
     pad = '  ' * indent
     if n is None:
         return pad + '∅\n'
+    if drop is not None and drop(n):
+        return ''
     k = n.k
-    R = lambda x, i=indent + 1: stmt_tree_text(x, ren, i)
+    E = lambda x: expr_text(x, ren, hook)
+    R = lambda x, i=indent + 1: stmt_tree_text(x, ren, i, hook, drop)
+    if hook is not None and k not in ('CompoundStmt',):
+        r = hook(n)
+        if r is not None:
+            return pad + r + '\n'
     if k == 'CompoundStmt':
-        return ''.join(stmt_tree_text(c, ren, indent) for c in n.c)
+        return ''.join(stmt_tree_text(c, ren, indent, hook, drop) for c in n.c)
     if k == 'IfStmt':
-        s = pad + 'if (%s)\n' % expr_text(n.child('cond'), ren) + R(n.child('then'))
+        s = pad + 'if (%s)\n' % E(n.child('cond')) + (R(n.child('then')) or (pad + '  ;\n'))
         if n.child('else') is not None:
-            s += pad + 'else\n' + R(n.child('else'))
+            s += pad + 'else\n' + (R(n.child('else')) or (pad + '  ;\n'))
         return s
     if k == 'ForStmt':
-        return pad + expr_text(n, ren) + '\n' + R(n.child('body'))
+        return pad + 'for (%s; %s; %s)\n' % (E(n.child('init')), E(n.child('cond')), E(n.child('inc'))) + R(n.child('body'))
     if k == 'WhileStmt':
-        return pad + expr_text(n, ren) + '\n' + R(n.child('body'))
+        return pad + 'while (%s)\n' % E(n.child('cond')) + R(n.child('body'))
     if k == 'DoStmt':
-        return pad + 'do\n' + R(n.child('body')) + pad + 'while (%s)\n' % expr_text(n.child('cond'), ren)
+        return pad + 'do\n' + R(n.child('body')) + pad + 'while (%s)\n' % E(n.child('cond'))
     if k == 'SwitchStmt':
-        return pad + expr_text(n, ren) + '\n' + R(n.child('body'))
-    if k in ('CaseStmt', 'DefaultStmt'):
-        return pad + expr_text(n, ren) + ':\n' + R(n.child('sub'))
+        return pad + 'switch (%s)\n' % E(n.child('cond')) + R(n.child('body'))
+    if k == 'CaseStmt':
+        return pad + 'case %s:\n' % E(n.child('lhs')) + R(n.child('sub'))
+    if k == 'DefaultStmt':
+        return pad + 'default:\n' + R(n.child('sub'))
     if k == 'LabelStmt':
         return pad + n.label + ':\n' + R(n.child('sub'))
-    return pad + expr_text(n, ren) + '\n'
+    return pad + E(n) + '\n'
 
 
 class Block:
@@ -437,8 +455,8 @@ def load(repo=None, extra_units=(), extra_roots=(), extra_flags=()):
     t0 = time.time()
     if not os.path.exists(GX):
         raise AnalysisBroken('extractor not built: run setup (make -C /verif)')
-    units = source_units(repo) + list(extra_units)
-    if len(units) < 17:
+    units = source_units(repo) + [os.path.join(VERIF, 'inst', 'templates.cpp')] + list(extra_units)
+    if len(units) < 18:
         raise AnalysisBroken('expected >= 17 translation units under %s/src, found %d' % (repo, len(units)))
     key = tree_key(units + header_files(repo))
     out = os.path.join(FACTS, key)
